@@ -139,6 +139,9 @@ def helper_case(draw, mode):
         # long leaves (time streams, maps), around and at multiples of the block sizes a chunked reduction would use
         big = draw(st.sampled_from([[4096], [8192], [2, 4096], [4097], [5000], [12288], [3, 1024], [65536], [1023]]))
         leaves[draw(st.integers(0, nl - 1))] = [big, draw(st.sampled_from(['float32', 'int32', 'complex64']))]
+        # (no half-precision leaf next to it: JAX promotes int32 + float16 to float16, whose range and 11-bit mantissa
+        # cannot hold a sum over thousands of elements - a matter of the result dtype, not of the sum)
+        leaves = [[sh_, 'float32' if dt_ == 'float16' else dt_] for sh_, dt_ in leaves]
     layout = draw(st.sampled_from(['tuple', 'list', 'dict', 'nested', 'leaf']))
     return {'what': what, 'leaves': leaves, 'layout': layout, 'seed': draw(st.integers(0, 99)),
             'fill': draw(st.sampled_from([0, 1, 3, -2])), 'struct_leaves': draw(st.booleans()),
